@@ -53,6 +53,7 @@ static int       Grcompr    = 0;    /* compression scheme to use */
 static comp_info Grcinfo;           /* Compression information for each
                                         scheme */
 static uint16 Grrefset   = 0;       /* Ref of image to get next */
+static uint16 Grlastrig  = 0;       /* ref of the raster image group read last (need not be the ref of its image) */
 static uint16 Grlastref  = 0;       /* Last ref read/written */
 static int    Grreqil[2] = {0, 0};  /* requested lut/image il */
 static struct {                     /* track refs of set vals written before */
@@ -707,6 +708,7 @@ DFGRIopen(const char *filename, int acc_mode)
         if (Ref.nt > 0)
             Ref.nt = 0;
         Grread = Grzrig; /* no rigs read yet */
+        Grlastrig = 0;
     }
 
     /* remember filename, so reopen may be used next time if same file */
@@ -751,7 +753,7 @@ DFGRIriginfo(int32 file_id)
         if (DFGRIstart() == FAIL)
             HGOTO_ERROR(DFE_CANTINIT, FAIL);
 
-    isfirst  = (Grrefset != 0) || (Grread.data[IMAGE].ref == 0);
+    isfirst  = (Grrefset != 0) || (Grread.data[IMAGE].ref == 0 && Grlastrig == 0);
     getref   = Grrefset; /* ref if specified, else 0 */
     Grrefset = 0;        /* no longer need to remember specified ref */
     gettag   = DFTAG_RIG;
@@ -760,7 +762,8 @@ DFGRIriginfo(int32 file_id)
             aid = Hstartread(file_id, gettag, getref);
         }
         else {
-            aid = Hstartread(file_id, gettag, Grread.data[IMAGE].ref);
+            /* continue after the group (or old-style image) read last */
+            aid = Hstartread(file_id, gettag, (gettag == DFTAG_RIG && Grlastrig) ? Grlastrig : Grread.data[IMAGE].ref);
             if ((aid != FAIL) && Hnextread(aid, gettag, getref, DF_CURRENT) == FAIL) {
                 Hendaccess(aid);
                 aid = FAIL;
@@ -793,8 +796,16 @@ DFGRIriginfo(int32 file_id)
     }
 
     if (newtag == DFTAG_RIG) {
-        if (DFGRgetrig(file_id, newref, &Grread) == FAIL)
+        int explicit_ref = (getref != 0);
+
+        Grlastrig = newref;
+        if (DFGRgetrig(file_id, newref, &Grread) == FAIL) {
+            /* a group this interface cannot present (e.g. written by the GR interface with a
+               number type other than unsigned char) does not end the sequence: go on to the next */
+            if (!explicit_ref && HEvalue(1) == DFE_BADCALL)
+                HGOTO_DONE(DFGRIriginfo(file_id));
             HGOTO_ERROR(DFE_INTERNAL, FAIL);
+        }
     }
     else {
         uint16 uint16var;
